@@ -1002,6 +1002,179 @@ Proof.
     apply claims_all_one. eapply SH; eauto.
 Qed.
 
+(* ------------------------------------------------------------------ pooling output size *)
+Lemma div_ceil_nonneg w s : 0 <= w -> 0 < s -> div_ceil_z w s = (w + s - 1) / s.
+Proof.
+  intros Hw Hs. rewrite div_ceil_spec by lia.
+  pose proof (Z.div_mod (- w) s ltac:(lia)) as D1. pose proof (Z.mod_pos_bound (- w) s Hs) as B1.
+  pose proof (Z.div_mod (w + s - 1) s ltac:(lia)) as D2. pose proof (Z.mod_pos_bound (w + s - 1) s Hs) as B2.
+  nia.
+Qed.
+
+(* The inferred size counts window positions: output position j (j >= 0) exists iff
+   floor mode: the window starting at j*s fits into the padded input;
+   ceil mode:  the previous window did not already reach the end of the padded input (partial last
+               window allowed) and the window starts inside the input or its start padding. *)
+Theorem pool_out_counts_windows n k s d ps pe :
+  0 < s -> 0 <= n + ps + pe - d * (k - 1) - 1 -> 1 <= n + ps ->
+  let w := n + ps + pe - d * (k - 1) - 1 in
+  forall j, 0 <= j ->
+    (j < pool_out_z n k s d ps pe false <-> j * s <= w) /\
+    (j < pool_out_z n k s d ps pe true <-> (j * s < w + s /\ j * s <= n + ps - 1)).
+Proof.
+  intros Hs Hw Hl w j Hj. unfold pool_out_z. fold w. cbv zeta.
+  rewrite !Z.quot_div_nonneg by lia. rewrite div_ceil_nonneg by lia.
+  pose proof (Z.div_mod w s ltac:(lia)) as D1. pose proof (Z.mod_pos_bound w s Hs) as B1.
+  pose proof (Z.div_mod (w + s - 1) s ltac:(lia)) as D2. pose proof (Z.mod_pos_bound (w + s - 1) s Hs) as B2.
+  pose proof (Z.div_mod (n + ps - 1) s ltac:(lia)) as D3. pose proof (Z.mod_pos_bound (n + ps - 1) s Hs) as B3.
+  split; split; intros H; nia.
+Qed.
+
+(* evaluation of the expression built by output_size, for parameters in a range that excludes i32
+   overflow of every intermediate *)
+Definition small (z : Z) : Prop := 0 <= z <= 1048576.
+
+Lemma evalw_value s z : small z -> evalw s (Value z) = Ok z.
+Proof. intros [H1 H2]. unfold evalw. cbn [evalm]. replace (in_i32 z) with true; [reflexivity|]. symmetry. apply in_i32_iff. unfold I32, i32_min, i32_max. lia. Qed.
+
+Lemma wrap32_small z : - 2147483648 <= z <= 2147483647 -> wrap32 z = z.
+Proof. intros H. apply wrap32_id. unfold I32, i32_min, i32_max. lia. Qed.
+
+Definition fits (z : Z) : Prop := - 2147483648 <= z <= 2147483647.
+Lemma ev_add s a b x y : evalw s a = Ok x -> evalw s b = Ok y -> fits (x + y) -> evalw s (Add a b) = Ok (x + y).
+Proof. intros A B F. unfold evalw in *. cbn [evalm]. rewrite A, B. cbn [bind2 chk]. rewrite wrap32_small by exact F. reflexivity. Qed.
+Lemma ev_sub s a b x y : evalw s a = Ok x -> evalw s b = Ok y -> fits (x - y) -> evalw s (Sub a b) = Ok (x - y).
+Proof. intros A B F. unfold evalw in *. cbn [evalm]. rewrite A, B. cbn [bind2 chk]. rewrite wrap32_small by exact F. reflexivity. Qed.
+Lemma ev_mul s a b x y : evalw s a = Ok x -> evalw s b = Ok y -> fits (x * y) -> evalw s (Mul a b) = Ok (x * y).
+Proof. intros A B F. unfold evalw in *. cbn [evalm]. rewrite A, B. cbn [bind2 chk]. rewrite wrap32_small by exact F. reflexivity. Qed.
+Lemma ev_div s a b x y : evalw s a = Ok x -> evalw s b = Ok y -> 0 < y -> evalw s (Div a b) = Ok (Z.quot x y).
+Proof.
+  intros A B F. unfold evalw in *. cbn [evalm]. rewrite A, B. cbn [bind2].
+  replace (y =? 0) with false by (symmetry; apply Z.eqb_neq; lia).
+  replace (div_ovf x y) with false by (symmetry; apply div_ovf_false; lia). reflexivity.
+Qed.
+Lemma ev_divceil s a b x y : evalw s a = Ok x -> evalw s b = Ok y -> 0 < y -> evalw s (DivCeil a b) = Ok (div_ceil_z x y).
+Proof.
+  intros A B F. unfold evalw in *. cbn [evalm]. rewrite A, B. cbn [bind2].
+  replace (y =? 0) with false by (symmetry; apply Z.eqb_neq; lia).
+  replace (div_ovf x y) with false by (symmetry; apply div_ovf_false; lia). reflexivity.
+Qed.
+Lemma ev_min s a b x y : evalw s a = Ok x -> evalw s b = Ok y -> evalw s (Min a b) = Ok (Z.min x y).
+Proof. intros A B. unfold evalw in *. cbn [evalm]. rewrite A, B. reflexivity. Qed.
+
+Lemma out_size_expr_eval s e n k st d ps pe ceil :
+  evalw s e = Ok n -> small n -> small k -> small st -> small d -> small ps -> small pe ->
+  1 <= st -> 1 <= k -> d * (k - 1) <= 1048576 ->
+  0 <= n + ps + pe - d * (k - 1) - 1 ->
+  evalw s (out_size_expr e k st d (Some (ps, pe)) ceil) = Ok (pool_out_z n k st d ps pe ceil).
+Proof.
+  intros He Hn Hk Hs Hd Hps Hpe Hs1 Hk1 Hdk Hw.
+  pose proof (evalw_value s 1 ltac:(unfold small; lia)) as V1.
+  pose proof (evalw_value s k Hk) as Vk. pose proof (evalw_value s st Hs) as Vs. pose proof (evalw_value s d Hd) as Vd.
+  pose proof (evalw_value s ps Hps) as Vps. pose proof (evalw_value s pe Hpe) as Vpe.
+  unfold small in *.
+  assert (E1 : evalw s (Add e (Value ps)) = Ok (n + ps)) by (apply ev_add; auto; unfold fits; lia).
+  assert (E2 : evalw s (Add (Add e (Value ps)) (Value pe)) = Ok (n + ps + pe)) by (apply ev_add; auto; unfold fits; lia).
+  assert (E3 : evalw s (Sub (Value k) (Value 1)) = Ok (k - 1)) by (apply ev_sub; auto; unfold fits; lia).
+  assert (E4 : evalw s (Mul (Value d) (Sub (Value k) (Value 1))) = Ok (d * (k - 1))) by (apply ev_mul; auto; unfold fits; nia).
+  assert (E5 : evalw s (Sub (Add (Add e (Value ps)) (Value pe)) (Mul (Value d) (Sub (Value k) (Value 1)))) = Ok (n + ps + pe - d * (k - 1)))
+    by (apply ev_sub; auto; unfold fits; nia).
+  assert (E6 : evalw s (Sub (Sub (Add (Add e (Value ps)) (Value pe)) (Mul (Value d) (Sub (Value k) (Value 1)))) (Value 1))
+               = Ok (n + ps + pe - d * (k - 1) - 1)) by (apply ev_sub; auto; unfold fits; nia).
+  set (w := n + ps + pe - d * (k - 1) - 1) in *.
+  unfold out_size_expr, pool_out_z. fold w. destruct ceil.
+  - assert (B : 0 <= div_ceil_z w st <= w) by (apply div_ceil_pos; lia).
+    assert (E7 : evalw s (Add (DivCeil (Sub (Sub (Add (Add e (Value ps)) (Value pe)) (Mul (Value d) (Sub (Value k) (Value 1)))) (Value 1)) (Value st)) (Value 1))
+                 = Ok (div_ceil_z w st + 1)).
+    { apply ev_add; auto; [apply ev_divceil; auto; lia|unfold fits; subst w; nia]. }
+    assert (E8 : evalw s (Sub (Add e (Value ps)) (Value 1)) = Ok (n + ps - 1)) by (apply ev_sub; auto; unfold fits; lia).
+    assert (Q : - 1048576 <= Z.quot (n + ps - 1) st <= 4194304).
+    { destruct (Z.eq_dec (n + ps) 0) as [E0|E0].
+      - replace (n + ps - 1) with (- (1)) by lia. rewrite Z.quot_opp_l by lia. rewrite Z.quot_div_nonneg by lia.
+        pose proof (Z.div_pos 1 st ltac:(lia) ltac:(lia)). pose proof (Z.div_le_upper_bound 1 st 1 ltac:(lia) ltac:(lia)). lia.
+      - rewrite Z.quot_div_nonneg by lia.
+        pose proof (Z.div_le_upper_bound (n + ps - 1) st 4194304 ltac:(lia) ltac:(nia)).
+        pose proof (Z.div_pos (n + ps - 1) st ltac:(lia) ltac:(lia)). lia. }
+    apply ev_min; auto. apply ev_add; auto; [apply ev_div; auto; lia|unfold fits; lia].
+  - pose proof (Z.quot_div_nonneg w st ltac:(lia) ltac:(lia)) as QD.
+    pose proof (Z.div_le_upper_bound w st 4194304 ltac:(lia) ltac:(subst w; nia)).
+    pose proof (Z.div_pos w st ltac:(lia) ltac:(lia)).
+    apply ev_add; auto; [apply ev_div; auto; lia|unfold fits; lia].
+Qed.
+
+(* the (repaired) execution computes the same number *)
+Lemma drop_trailing_spec s lim : 0 < s -> 1 <= lim ->
+  forall fuel out, 0 <= out -> (Z.to_nat out <= fuel)%nat ->
+    drop_trailing fuel out s lim = Z.min out ((lim - 1) / s + 1).
+Proof.
+  intros Hs Hl. pose proof (Z.div_mod (lim - 1) s ltac:(lia)) as D. pose proof (Z.mod_pos_bound (lim - 1) s Hs) as B.
+  induction fuel as [|f IH]; intros out Ho Hf; cbn [drop_trailing].
+  - assert (out = 0) by lia. subst. nia.
+  - destruct (0 <? out) eqn:E1; cbn [andb].
+    + apply Z.ltb_lt in E1. destruct (lim <=? (out - 1) * s) eqn:E2.
+      * apply Z.leb_le in E2. rewrite IH by lia. nia.
+      * apply Z.leb_gt in E2. nia.
+    + apply Z.ltb_ge in E1. assert (out = 0) by lia. subst. nia.
+Qed.
+
+Lemma pool_exec_spec n k s ps pe ceil o :
+  pool_exec_z true n k s 1 ps pe ceil = Some o -> 0 <= n -> 0 <= ps -> 0 <= pe -> 1 <= n + ps ->
+  o = pool_out_z n k s 1 ps pe ceil /\ 1 <= k /\ 1 <= s /\ 0 <= n + ps + pe - 1 * (k - 1) - 1.
+Proof.
+  unfold pool_exec_z. intros H Hn Hps Hpe Hl.
+  destruct ((1 <? 1) || (k <? 1) || (s <? 1)) eqn:E1; [discriminate|].
+  apply orb_false_iff in E1 as [E1 E3]. apply orb_false_iff in E1 as [_ E2].
+  apply Z.ltb_ge in E2, E3.
+  destruct (n + ps + pe <? k + (k - 1) * (1 - 1)) eqn:E4; [discriminate|]. apply Z.ltb_ge in E4.
+  assert (W : 0 <= n + ps + pe - 1 * (k - 1) - 1) by lia.
+  unfold pool_out_z. destruct ceil; inv H; repeat split; try lia.
+  pose proof (div_ceil_pos (n + ps + pe - 1 * (k - 1) - 1) s W ltac:(lia)) as B.
+  rewrite drop_trailing_spec by lia. rewrite Z.quot_div_nonneg by lia. reflexivity.
+Qed.
+
+(* side condition of the pooling theorem: sizes and attributes are small enough for i32 arithmetic
+   and, in ceil mode, the input plus start padding is not empty *)
+Definition pool_small (ks pads st : list Z) (cins : list (option ctensor)) (_ : list ctensor) : Prop :=
+  Forall small ks /\ Forall small pads /\ Forall small st /\
+  forall t, cin cins 0 = Some t -> Forall small (c_shape t) /\
+    forall ph0 pw0 ph1 pw1 n c h w, pads = [ph0; pw0; ph1; pw1] -> c_shape t = [n; c; h; w] -> 1 <= h + ph0 /\ 1 <= w + pw0.
+
+Theorem infer_sound_Pool v ks pads st ceil : sound_for v (OPool ks (Some pads) st ceil) (pool_small ks pads st).
+Proof.
+  intros s ins cins outs couts A I E (Sk & Sp & Ss & St). cbn [infer_with] in I. unfold infer_pool in I.
+  destruct (input ins 0) as [t|] eqn:E0; [|discriminate].
+  destruct (cons_input _ _ _ _ _ A E0) as (c & Ec & C). cbn [exec_ref] in E. rewrite Ec in E.
+  destruct (St c Ec) as [Sd Sl].
+  destruct pads as [|ph0 [|pw0 [|ph1 [|pw1 [|? ?]]]]]; try discriminate.
+  destruct (c_shape c) as [|n [|ch [|h [|w [|? ?]]]]] eqn:Sc; try discriminate.
+  destruct ks as [|kh [|kw [|? ?]]]; try discriminate. destruct st as [|sh [|sw [|? ?]]]; try discriminate.
+  destruct (pool_exec_z true h kh sh 1 ph0 ph1 ceil) as [oh|] eqn:Xh; [|discriminate].
+  destruct (pool_exec_z true w kw sw 1 pw0 pw1 ceil) as [ow|] eqn:Xw; [|discriminate]. inv E.
+  destruct (Sl ph0 pw0 ph1 pw1 n ch h w eq_refl eq_refl) as [Lh Lw].
+  inversion Sd as [|? ? Sn Sd1]; subst. inversion Sd1 as [|? ? Sch Sd2]; subst. inversion Sd2 as [|? ? Sh Sd3]; subst.
+  inversion Sd3 as [|? ? Sw _]; subst.
+  inversion Sk as [|? ? Skh Sk1]; subst. inversion Sk1 as [|? ? Skw _]; subst.
+  inversion Ss as [|? ? Ssh Ss1]; subst. inversion Ss1 as [|? ? Ssw _]; subst.
+  inversion Sp as [|? ? P0 Sp1]; subst. inversion Sp1 as [|? ? P1 Sp2]; subst. inversion Sp2 as [|? ? P2 Sp3]; subst.
+  inversion Sp3 as [|? ? P3 _]; subst.
+  destruct (t_shape t) as [dims|] eqn:Td; [|inv I; reflexivity].
+  destruct (t_shape_cons _ _ _ _ C Td) as [H _]. rewrite Sc in H.
+  destruct dims as [|en [|ec [|eh [|ew [|? ?]]]]]; try (apply all2_length in H; discriminate).
+  cbn [all2] in H. apply andb_prop in H as [Hn H]. apply andb_prop in H as [Hc H]. apply andb_prop in H as [Hh H].
+  apply andb_prop in H as [Hw _].
+  cbn [nth_error length Nat.ltb Nat.leb Nat.sub Nat.add pad_dim] in I. inv I.
+  unfold small in *.
+  destruct (pool_exec_spec _ _ _ _ _ _ _ Xh ltac:(lia) ltac:(lia) ltac:(lia) Lh) as (-> & K1 & S1 & W1).
+  destruct (pool_exec_spec _ _ _ _ _ _ _ Xw ltac:(lia) ltac:(lia) ltac:(lia) Lw) as (-> & K2 & S2 & W2).
+  apply claims_all_one. cbn [claims cshape c_shape all2].
+  rewrite (claim_of_cons _ _ _ Hn), (claim_of_cons _ _ _ Hc). cbn [andb].
+  assert (C1 : claim s (out_size_expr eh kh sh 1 (Some (ph0, ph1)) ceil) (pool_out_z h kh sh 1 ph0 ph1 ceil) = true).
+  { apply claim_of_evalw. apply out_size_expr_eval; auto using expr_cons_evalw; unfold small; lia. }
+  assert (C2 : claim s (out_size_expr ew kw sw 1 (Some (pw0, pw1)) ceil) (pool_out_z w kw sw 1 pw0 pw1 ceil) = true).
+  { apply claim_of_evalw. apply out_size_expr_eval; auto using expr_cons_evalw; unfold small; lia. }
+  unfold out_size_expr in C1, C2. rewrite C1, C2. reflexivity.
+Qed.
+
 (* ------------------------------------------------------------ the check's oracle *)
 Lemma prop_ok_reject c :
   prop_ok c = false ->
